@@ -584,6 +584,7 @@ type ctx struct {
 	h         *verifx.H
 	supported map[string]bool // "<schema>/<name>" entries the Lean descriptor table has
 	results   map[string]bool // functions whose result descriptor exists
+	tl2       map[string]bool // types in the TL2 table of the model
 }
 
 // decObs runs the real reader on `in` and renders what the model must reproduce: error, or remaining length and the
@@ -606,6 +607,26 @@ func canonicalised(obs string, in []byte) bool {
 	var rest int
 	fmt.Sscanf(f[1], "rest=%d", &rest)
 	return strings.TrimPrefix(f[2], "re=") != verifx.Hex(in[:len(in)-rest])
+}
+
+// holdsMap: the Go type contains a map (a string-variant dictionary)
+func holdsMap(t reflect.Type, depth int) bool {
+	if depth > 10 {
+		return false
+	}
+	switch t.Kind() {
+	case reflect.Map:
+		return true
+	case reflect.Ptr, reflect.Slice, reflect.Array:
+		return holdsMap(t.Elem(), depth+1)
+	case reflect.Struct:
+		for i := 0; i < t.NumField(); i++ {
+			if holdsMap(t.Field(i).Type, depth+1) {
+				return true
+			}
+		}
+	}
+	return false
 }
 
 // verdict: "err", or "ok rest=N" (without the re-encoding)
@@ -826,6 +847,17 @@ func (c *ctx) tlCase(it verifc14.Item, r *verifx.Rng) {
 	}
 	op(false, append(append([]byte{}, b...), tail...))
 	op(true, append(append([]byte{}, bb...), tail...))
+	// the []byte variant of the type on the same bytes (`decb`): the model has ONE descriptor and ONE encoding per type, so
+	// "both variants produce identical encodings" is exactly: both observations equal the model's single answer
+	{
+		in := append(append([]byte{}, b...), tail...)
+		h.Op("decb %s bare %s", key, verifx.Hex(in))
+		h.Obs("%s", decObsOf(it.NewBytes(), false, in))
+		inb := append(append([]byte{}, bb...), tail...)
+		h.Op("decb %s boxed %s", key, verifx.Hex(inb))
+		h.Obs("%s", decObsOf(it.NewBytes(), true, inb))
+		h.Stat("tl.bytes-variant-ops", 2)
+	}
 	// the same kind of op, but the real reader fills an object that has just read the fully populated value A: the model
 	// (a function of the bytes) must still agree — reading never depends on what the destination held before
 	if reuseB != nil && len(reuseA) < 6000 && len(reuseB) < 6000 {
@@ -882,6 +914,82 @@ func (c *ctx) tlCase(it verifc14.Item, r *verifx.Rng) {
 		} else {
 			h.Stat("tl.mutant-rejected", 1)
 		}
+	}
+	// TL2 of the generated type against SH.Model.TL2 on the same descriptor: decode + re-encode of the Go bytes (string
+	// and []byte variant), the TL1 and TL2 bytes denote the same model value, a truncation, two one-byte mutants
+	if it.HasTL2 && c.tl2[key] && len(t2) > 0 && len(t2) < 6000 {
+		tl2obs := func(o verifc14.Obj, in []byte) string {
+			rest, err := readTL2(o, in)
+			if err != nil {
+				if strings.HasPrefix(err.Error(), "panic") {
+					return "panic"
+				}
+				return "err"
+			}
+			re, err := writeTL2(o)
+			if err != nil {
+				return "werr"
+			}
+			return fmt.Sprintf("ok rest=%d re=%s", len(rest), verifx.Hex(re))
+		}
+		in := append(append([]byte{}, t2...), tail...)
+		h.Op("tl2 %s %s", key, verifx.Hex(in))
+		h.Obs("%s", tl2obs(it.New(), in))
+		h.Op("tl2b %s %s", key, verifx.Hex(in))
+		h.Obs("%s", tl2obs(it.NewBytes(), in))
+		{
+			o := it.New()
+			x := "err"
+			if _, err := readTL2(o, t2); err == nil {
+				if re, err := writeBare(o); err == nil {
+					x = "differ"
+					if sameBytes(re, b) {
+						x = "same"
+					}
+				}
+			}
+			h.Op("tl2x %s %s %s", key, verifx.Hex(t2), verifx.Hex(b))
+			h.Obs("%s", x)
+		}
+		tr := t2[:r.Intn(len(t2))]
+		h.Op("tl2 %s %s", key, verifx.Hex(tr))
+		h.Obs("%s", tl2obs(it.New(), tr))
+		for m := 0; m < 2; m++ {
+			mb := append([]byte{}, t2...)
+			i := r.Intn(len(mb))
+			switch r.Intn(3) {
+			case 0:
+				mb[i] ^= 1 << uint(r.Intn(8))
+			case 1:
+				mb[i] = byte(r.U64())
+			case 2:
+				mb[i] = []byte{0, 1, 2, 253, 254, 255}[r.Intn(6)]
+			}
+			mb = append(mb, 0, 0, 0, 0, 0, 0, 0, 0)
+			obs := tl2obs(it.New(), mb)
+			// a string-variant dictionary is a Go map: on a mutant with duplicate or unsorted keys its re-encoding is
+			// canonicalised, the []byte variant (slice of pairs = the model's vector) shows it; where the type has no
+			// []byte variant but holds a map the re-encoding is not compared at all (op tl2n: verdict and consumed length)
+			if bobs := tl2obs(it.NewBytes(), mb); bobs != obs || (holdsMap(reflect.TypeOf(it.New()), 0) && reflect.TypeOf(it.New()) == reflect.TypeOf(it.NewBytes())) {
+				if verdict(bobs) != verdict(obs) {
+					h.Viol("variants-disagree-on-input:"+key, "TL2: string variant: %.80s, bytes variant: %.80s on %s", obs, bobs, short(mb))
+				}
+				h.Op("tl2n %s %s", key, verifx.Hex(mb))
+				h.Obs("%s", verdict(obs))
+				h.Stat("tl2.mutant-canonicalised-by-map", 1)
+				continue
+			}
+			h.Op("tl2 %s %s", key, verifx.Hex(mb))
+			h.Obs("%s", obs)
+			if strings.HasPrefix(obs, "ok") {
+				h.Stat("tl2.mutant-accepted", 1)
+			} else {
+				h.Stat("tl2.mutant-rejected", 1)
+			}
+		}
+		h.Stat("tl2.object-ops", 6)
+	} else if it.HasTL2 {
+		h.Stat("tl2.empty-or-long", 1)
 	}
 	if res != nil && c.results[key] && len(res) < 6000 {
 		obs := "err"
@@ -1413,7 +1521,7 @@ func main() {
 		return
 	}
 	fullDump = h.Mode == "full"
-	c := &ctx{h: h, supported: map[string]bool{}, results: map[string]bool{}}
+	c := &ctx{h: h, supported: map[string]bool{}, results: map[string]bool{}, tl2: map[string]bool{}}
 	if h.Arg != "" {
 		data, err := os.ReadFile(h.Arg)
 		if err != nil {
@@ -1424,6 +1532,9 @@ func main() {
 			f := strings.Fields(line)
 			if len(f) == 2 && f[0] == "desc" {
 				c.supported[f[1]] = true
+			}
+			if len(f) == 2 && f[0] == "tl2" {
+				c.tl2[f[1]] = true
 			}
 			if len(f) == 2 && f[0] == "result" {
 				c.results[f[1]] = true
